@@ -113,9 +113,12 @@ impl ZoneXorFilterIndex {
                             unique_values_count = unique_values.len(),
                             unique_hashes_count = hashes_count,
                             error = ?e,
-                            "Failed to build BinaryFuse8 filter - skipping zone filter (this is non-fatal)"
+                            "Failed to build BinaryFuse8 filter - skipping the .zxf of this field (this is non-fatal)"
                         );
                     }
+                    // A zone without a filter would never be reported by zones_maybe_containing
+                    // (= pruned); without a .zxf the pruner cannot decide and every zone is scanned.
+                    return None;
                 }
             }
         }
